@@ -260,6 +260,26 @@ func (e *Engine) RunProperty(id, tier string, seed, timeout int) *CheckRun {
 			}
 		}
 	}
+	// package-level obligations (init establishes the global invariants; immutable globals)
+	pkgsSeen := map[string]bool{}
+	for _, rep := range append([]*FuncReport{}, run.Reports...) {
+		fn := e.funcByShort(rep.Fn)
+		if fn == nil || fn.Pkg == nil {
+			continue
+		}
+		pp := fn.Pkg.Pkg.Path()
+		if pkgsSeen[pp] {
+			continue
+		}
+		pkgsSeen[pp] = true
+		if prep := e.VerifyPackageGlobals(pp); prep != nil {
+			run.Reports = append(run.Reports, prep)
+			all = append(all, prep.Obls...)
+			for _, failed := range prep.Failed {
+				all = append(all, &Obligation{Name: prep.Fn + "#tool", Func: prep.Fn, Label: "tool", Kind: "tool", Goal: False, Where: failed})
+			}
+		}
+	}
 	// discharge
 	var real []*Obligation
 	for _, o := range all {
@@ -592,4 +612,14 @@ func modelString(m map[string]string) string {
 // tryReplay: placeholder until replay.go provides the real thing.
 func (e *Engine) tryReplay(d *Discharged) (bool, interface{}) {
 	return replayObligation(e, d)
+}
+
+func (e *Engine) funcByShort(short string) *ssa.Function {
+	if e.shortIdx == nil {
+		e.shortIdx = map[string]*ssa.Function{}
+		for _, f := range e.allFuncs {
+			e.shortIdx[shortFn(f)] = f
+		}
+	}
+	return e.shortIdx[short]
 }
